@@ -69,7 +69,11 @@ def _pong_responder(answer_upto, latency, coalesce=False):
             st["n"] += 1
             server.net.ping_times.append(server.k.now)
             if k < answer_upto:
-                server.k.after(latency, lambda: server.deliver((server_frame(1, 2, b"q") if coalesce else b"") + server_frame(1, 10, b"")))
+                if coalesce == "frag":
+                    # the pong travels BETWEEN the two fragments of a data message (control frames may be injected there, RFC 6455 5.4)
+                    server.k.after(latency, lambda: server.deliver(server_frame(0, 2, b"q") + server_frame(1, 10, b"") + server_frame(1, 0, b"r")))
+                else:
+                    server.k.after(latency, lambda: server.deliver((server_frame(1, 2, b"q") if coalesce else b"") + server_frame(1, 10, b"")))
     return hook
 
 
@@ -278,6 +282,7 @@ def obligations(tier):
     # TLS transport (SSLDispatcher), and pongs that arrive in one segment / record behind a data frame
     for (i, t) in (pairs if thorough else pairs[::4]):
         live += [dict(I=i, T=t, ndata=(1 if thorough else 0), tls=tl, coalesce=co) for tl in (False, True) for co in (False, True) if tl or co]
+        live += [dict(I=i, T=t, ndata=0, tls=tl, coalesce="frag") for tl in (False, True)]  # pong between the fragments of a message (round 8)
     silent += [dict(I=i, T=t, answered=1, ndata=0, reenter=True) for (i, t) in pairs[::5]]
     # a peer that never answers pings but keeps sending data frames more often than once per timeout (round 7)
     silent += [dict(I=i, T=t, answered=a, ndata=0, chatty=c) for (i, t) in (pairs if thorough else pairs[1::3]) for a in (0, 1) for c in ("1/2", "9/10")]
@@ -308,6 +313,6 @@ def obligations(tier):
                    bounds="grid pairs; external rel-style dispatcher (reader + one re-arming check timer); peer answers the first 0..2 pings then never",
                    must_cover=["silent-ext"], step_budget=200000, kernel=["WebSocketApp.run_forever (dispatcher=...)", "WrappedDispatcher.read / timeout", "check", "_send_ping"]),
         Obligation("T-live", t_live, live, bounds="15 grid pairs; every ping answered after a latency that is a solver real in [0,T); 0..%d data frames at symbolic "
-                   "times; 3 pings; plain and TLS transport, pong alone or behind a data frame in the same segment / record" % (2 if thorough else 1), must_cover=["live"], budget_s=2400, step_budget=200000,
+                   "times; 3 pings; plain and TLS transport, pong alone, behind a data frame in the same segment / record, or between the two fragments of a data message" % (2 if thorough else 1), must_cover=["live"], budget_s=2400, step_budget=200000,
                    kernel=["WebSocketApp._send_ping", "check", "read (pong branch)", "Dispatcher.read", "SSLDispatcher.read", "SSLDispatcher.select"]),
     ]
